@@ -10,7 +10,8 @@
 From Coq Require Import List NArith ZArith Bool.
 From Coq.Strings Require Import Byte.
 Require Import GV.Base.Res GV.Base.Byt GV.Base.Ints GV.Model.Leb GV.Model.Prim
-               GV.Spec.LebSpec GV.Spec.FormSpec GV.Model.Attr GV.Proofs.AttrProofs.
+               GV.Spec.LebSpec GV.Spec.FormSpec GV.Model.Attr GV.Proofs.AttrProofs GV.Proofs.GenAgree.
+Require GV.Gen.FormCodes GV.Gen.FormSize GV.Gen.AllowSecOffset GV.Gen.AttrValueTable.
 Import ListNotations.
 Local Open Scope N_scope.
 
@@ -182,6 +183,17 @@ Theorem build_mode_irrelevant : forall dbg e spec specs bs,
   parse_attribute dbg e spec bs = parse_attribute false e spec bs /\
   skip_attributes dbg e specs bs = skip_attributes false e specs bs.
 Proof. exact AttrProofs.build_mode_irrelevant. Qed.
+
+(* ------------------------------------------------------------------ *)
+(* translator tie: the tables regenerated from the Rust source text on every run (coq/Gen/*.v,
+   translate/tables.py) are the tables of the model the theorems above are about *)
+
+Theorem translator_tie :
+  (forall f, FormCodes.rust_form_code f = form_code f) /\
+  (forall c e, FormSize.get_attribute_size c e = Attr.get_attribute_size c e) /\
+  (forall name ver, AllowSecOffset.allow_section_offset name ver = Attr.allow_section_offset name ver) /\
+  (forall name, name < 65536 -> AttrValueTable.name_convs name = Attr.name_convs name).
+Proof. exact GenAgree.translator_tie. Qed.
 
 (* statement pins *)
 Check fixed_size_is_consumed : forall dbg e spec bs v r n,
